@@ -1022,7 +1022,10 @@ fn run_romberg(rep: &mut Report, fun: &Fun, a: f64, b: f64, n: usize) {
     let (exact, mag) = fun.integral(a, b);
     let len = b - a;
     let in_class = fun.is_polynomial() && fun.degree() <= 2 * n - 1;
-    let bound = K_ROMBERG * n as f64 * EPS * mag * len;
+    // beyond 12 rows the composite trapezoid sums of 2^(n-1)+1 terms dominate the rounding error:
+    // allow the worst case of a plain running sum on top of the extrapolation term
+    let sum_terms = if n > 12 { (1u64 << (n - 1)) as f64 } else { 0.0 };
+    let bound = (K_ROMBERG * n as f64 + sum_terms) * EPS * mag * len;
     let (g, obs) = call_lib(&c, fun);
     check_abscissae(rep, &c, fun, &obs);
     let v = Verdict { in_class, bound, ratio_name: "err_over_allowed" };
@@ -1147,6 +1150,21 @@ fn case_tanhsinh(rng: &mut Rng, rep: &mut Report) {
         return;
     }
     let complex = rng.chance(0.3);
+    // Stratum "odd on a symmetric interval" (4 %): the integral is exactly 0 and every level sum
+    // cancels exactly, so every difference between levels is exactly zero
+    if rng.chance(0.04) {
+        let half = rng.r(0.05, 2.0);
+        let tol = gen_tol(rng);
+        let mut fun = Fun::zero(complex);
+        let deg = 1 + 2 * rng.below(4);
+        fun.poly = (0..=deg).map(|k| if k % 2 == 1 { rc(rng, complex) } else { C::new(0.0, 0.0) }).collect();
+        if rng.bool() {
+            fun.sins.push((rng.r(-1.0, 1.0), rng.r(0.5, 3.0), 0.0));
+        }
+        rep.count("tanhsinh/odd_on_symmetric_interval", 1);
+        run_tanhsinh(rep, &fun, -half, half, tol);
+        return;
+    }
     let (a, b) = gen_interval(rng);
     let tol = gen_tol(rng);
     let fun = gen_fun_interval(rng, complex, a, b, Mix::All, DE_DEG_MAX);
@@ -1201,8 +1219,14 @@ fn case_simpson_smooth(rng: &mut Rng, rep: &mut Report) {
 fn case_romberg(rng: &mut Rng, rep: &mut Report) {
     let complex = rng.chance(0.3);
     let (a, b) = gen_interval(rng);
-    let n = 1 + rng.below(12);
-    let top = 2 * n - 1;
+    // mostly 1..12 rows; a few cases with 13..20 rows (up to 2^19 + 1 evaluations): the property
+    // holds for every n, and row counts beyond 16 are where integer powers of 4 leave 32 bits
+    let many_rows = rng.chance(0.02);
+    let n = if many_rows { 13 + rng.below(8) } else { 1 + rng.below(12) };
+    if many_rows {
+        rep.count("romberg/cases_with_13_to_20_rows", 1);
+    }
+    let top = if many_rows { 7 } else { 2 * n - 1 };
     let deg = if rng.chance(0.6) { top - rng.below(2) } else { rng.below(top + 1) };
     let mut fun = Fun::zero(complex);
     if deg <= 5 && rng.chance(0.3) {
